@@ -35,7 +35,7 @@ VARIANT_DROP = {
 }
 
 SAN = ["-fsanitize=address,undefined", "-fno-sanitize=alignment",
-       "-fno-sanitize-recover=undefined", "-fsanitize-recover=pointer-overflow",
+       "-fno-sanitize-recover=undefined", "-fsanitize-recover=pointer-overflow,nonnull-attribute",
        "-fno-omit-frame-pointer"]
 
 FLAVOURS = {
